@@ -161,6 +161,13 @@ def plan(ctx):
         tasks.append(('prim', (s, ctx.repo, rng.randrange(1 << 30), int(nprim * f))))
     for s in bands:
         tasks.append(('band', (s, ctx.repo, rng.randrange(1 << 30), 400 if T else 60)))
+    # sequences on one geometry object (query, remove the column found, query its old footprint; other objects in between)
+    for s in specs:
+        if s['kind'] == 'rect' and s['label'] in ('rect', 'refined', 'rotated', 'gaps', 'multiscale'):
+            for _ in range(6 if T else 2):
+                tasks.append(('seq', (s, ctx.repo, rng.randrange(1 << 30), 12 if T else 5)))
+        elif s['kind'] == 'file' and s['name'] in ('g1.dat', 'g7.dat', 'g5.dat'):
+            tasks.append(('seq', (s, ctx.repo, rng.randrange(1 << 30), 8 if T else 3)))
     # fixed witnesses of the recorded findings (run on every tier so that they are re-found or seen repaired)
     fx = dict(c12_geos.FAR_CROSSING_SPEC)
     tasks.append(('track', (fx, ctx.repo, 0, 0, c12_geos.FAR_CROSSING_LINES)))
@@ -170,7 +177,7 @@ def plan(ctx):
 def run_task(t):
     kind, args = t
     f = {'point': c12_oracle.point_task, 'block': c12_oracle.block_task, 'track': c12_oracle.track_task,
-         'prim': c12_oracle.prim_task, 'band': c12_oracle.band_task}[kind]
+         'prim': c12_oracle.prim_task, 'band': c12_oracle.band_task, 'seq': c12_oracle.seq_task}[kind]
     r = f(args)
     r['kind'] = kind
     r['label'] = args[0].get('label')
@@ -302,6 +309,8 @@ def process(ctx, exe, results):
                      classes={k[6:]: v for k, v in counts.items() if k.startswith('class:')})
     ctx.oracle_cases('exhaustive-contains', counts['points'])
     ctx.oracle_cases('block-unique', counts['points3d'], z_classes={k[2:]: v for k, v in counts.items() if k.startswith('z:')})
+    ctx.oracle_cases('sequence', counts['seq_queries'], rounds=counts['seq_rounds'], edits=counts['seq_edits'])
+    ctx.evaluations += counts['seq_queries']
     ctx.oracle_cases('track', counts['lines'], line_classes={k[5:]: v for k, v in counts.items() if k.startswith('line:')},
                      segments=counts['track_segments'])
     # the model
@@ -365,6 +374,7 @@ def run(ctx):
                 '8 search-aid combinations per point (none, right / neighbouring / far guess, bounding rectangle or boundary polygon, column '
                 'subset containing the answer, quadtree, a random combination); 3-D points with elevations inside layers, above, below, around '
                 'the column surface; lines with end points anywhere / inside columns / through the whole mesh, not along an edge. '
+                'sequences on one geometry object: 3-D query in a column, refine or delete that column, 3-D / 2-D / track queries in its old footprint as the first queries after the edit, an unrelated geometry queried in between, arguments compared before and after each call. '
                 'A case is distinct by (geometry, point or line, aid).')
     ctx.trusted += ['Coq 8.16.1 kernel (coqc); vm_compute only on closed terms inside proofs',
                     'coq/C12/Locate.v: hand-written model of geometry.py / mulgrids.py location code over exact rationals (validated by correspondence on this run, not verified against the Python text)',
@@ -445,6 +455,11 @@ def replay(ctx, data):
     out = c12_oracle.new_out()
     out['tracks'] = []
     key = data.get('finding_key', '')
+    if 'sequence' in inp:
+        r = c12_oracle.run_sequence(spec, ctx.repo, steps=inp['sequence'])
+        if 'crash' in r: print('replay: sequence crashed\n' + r['crash']); return True
+        for f in r['failures']: print('replay:', f[1], f[3], '| required:', f[4])
+        return bool(r['failures'])
     if 'line' in inp:
         l0, l1 = inp['line']
         exp = c12_oracle.expected_track(G, l0, l1)
